@@ -5,6 +5,7 @@
 // a `crash` event - judged by the trace specification like any other event - and a new child resumes with
 // the next script.  Nothing here judges anything.
 #pragma once
+#include <sys/time.h>
 #include "common.hpp"
 
 #include <sys/mman.h>
@@ -34,7 +35,9 @@ inline void set_pending(vh::json const& h)
 inline void begin_script(long si, unsigned seconds = 20)
 {
     if (shared() != nullptr) { shared()->script_idx = si; }
-    alarm(seconds);
+    // CPU-time budget per script (not wall-clock: a loaded machine must not fake a hang)
+    struct itimerval tv{{0, 0}, {(long)seconds, 0}};
+    setitimer(ITIMER_VIRTUAL, &tv, nullptr);
 }
 // child(start) runs scripts start.. (or one random history) and returns the exit code.
 // resumable: after a crash continue with the script following the crashed one.
@@ -52,7 +55,8 @@ int run_contained(bool resumable, F child, long max_crashes = 400)
         if (pid < 0) { return 2; }
         if (pid == 0) {
             int rc = child(start);
-            alarm(0);
+            struct itimerval tv_off{{0, 0}, {0, 0}};
+            setitimer(ITIMER_VIRTUAL, &tv_off, nullptr);
             std::fflush(nullptr);
             _exit(rc);
         }
